@@ -538,6 +538,8 @@ func migrateOne(id string, sp mspec) {
 				{ID: 2, IpAddress: "127.0.0.1", Port: int32(pB)},
 				{ID: 12, IpAddress: "127.0.0.1", Port: int32(pB)},
 				{ID: 6, Cdn: true, IpAddress: "127.0.0.1", Port: int32(pB)},
+				// real configurations list IPv6 options too; DC 14 has nothing else
+				{ID: 14, Ipv6: true, IpAddress: "2001:db8::e", Port: 443},
 			},
 		}
 		initSeen := make(chan refserver.Frame, 1)
@@ -576,6 +578,15 @@ func migrateOne(id string, sp mspec) {
 	}
 	// the DC table as the client holds it (default list + what was configured)
 	tbl := m.VerifClientDCList()
+	if sp.setup == "newclient" {
+		// the entry made from the IPv6 option must be an address the dialer takes apart into that host and that port
+		h, p, e := net.SplitHostPort(tbl[14])
+		if e == nil && h == "2001:db8::e" && p == "443" {
+			o.put("newclient-ipv6-entry", "ok")
+		} else {
+			o.put("newclient-ipv6-entry", "undialable:"+vc.HexS(tbl[14]))
+		}
+	}
 	keys := []int{}
 	for k := range tbl {
 		keys = append(keys, k)
